@@ -713,13 +713,15 @@ theorem appendLiteral_ext {cfg} {lv : Bool} {m : Bytes} {s : S} {r s1} (h : appe
         dsimp only at h
         split at h
         · cases h; exact e4.trans (crlfP_ext rfl)
-        · have e5 := e4.trans (emitCall_ext (cfg := cfg) (lv := lv) _ .append [m, ((s3.emit (.appendLit n true)).payload n).1])
+        · have e5 := e4.trans (emitCall_ext (cfg := cfg) (lv := lv) _ .append
+            [m, if cfg.appendFails then [] else ((s3.emit (.appendLit n true)).payload n).1])
           split at h
           · rename_i s6 h6
             split at h
             · cases h; exact e5.trans (expectCRLF_ext h6)
             · cases h; exact (e5.trans (expectCRLF_ext h6)).trans (.of_eq ⟨rfl, rfl, rfl⟩)
-          · rename_i s6 h6; cases h; exact e5.trans (expectCRLF_ext h6)
+          · rename_i s6 h6
+            split at h <;> (cases h; exact e5.trans (expectCRLF_ext h6))
 
 theorem hAppend_ext {cfg} {lv : Bool} {s : S} {r s1} (h : hAppend cfg s = (r, s1)) : Ext cfg lv s s1 := by
   unfold hAppend at h
